@@ -263,6 +263,7 @@ type c03Scenario struct {
 	Fields    map[FieldID]c03V                                        // loads of fields of objects the interpreter does not know
 	Fail      bool                                                    // authenticating / verifying primitives report failure
 	SealPad   bool                                                    // the AEAD pads the plaintext to whole AES blocks before sealing (CBC-HMAC)
+	ECCurve   string                                                  // curve of the ECDSA key the key object exports ("P-256", ...); "" = unknown
 	RawFails  bool                                                    // jwk key objects refuse to export themselves as the requested Go type (wrong kind of key)
 	Leaves    map[string]func(x *c03Exec, args []c03V) (c03V, string) // in-module functions replaced by a model
 }
@@ -1996,14 +1997,20 @@ func (x *c03Exec) model(s *c03State, name string, args []c03V) (c03V, string, bo
 				if x.sc.SealPad {
 					m += 16 - m%16
 				}
-				return c03SliceV(d + m + x.sc.Overhead), "", true
+				r := c03SliceV(d + m + x.sc.Overhead)
+				r.Ref, r.Off = arg(1).Ref, arg(1).Off // appended to dst: shares its storage when the capacity allows
+				return r, "", true
 			}
-			return c03SliceV(-1), "", true
+			r := c03SliceV(-1)
+			r.Ref, r.Off = arg(1).Ref, arg(1).Off
+			return r, "", true
 		}
 		if x.sc.Fail {
 			return c03TupleV(c03NilV(), failErr()), "", true
 		}
-		return c03TupleV(c03SliceV(-1), c03U()), "", true
+		r := c03SliceV(-1)
+		r.Ref, r.Off = arg(1).Ref, arg(1).Off
+		return c03TupleV(r, c03U()), "", true
 	case "golang.org/x/crypto/chacha20poly1305.New", "golang.org/x/crypto/chacha20poly1305.NewX":
 		if k := c03KnownLen(arg(0)); k >= 0 {
 			if k == 32 {
@@ -2139,7 +2146,45 @@ func (x *c03Exec) model(s *c03State, name string, args []c03V) (c03V, string, bo
 				s.mem[c.Ref] = c03SliceV(-1)
 			} else {
 				s.mem[c.Ref] = c03U() // the key object fills in the caller's struct
+				if x.sc.ECCurve != "" {
+					// an ECDSA key on a known curve: the exported struct carries that curve
+					et := ""
+					if pt, ok := c.Ref.Type().Underlying().(*types.Pointer); ok {
+						et = x.rtype(pt.Elem()).String()
+					}
+					curve := c03V{K: c03NonNil, G: "curve:" + x.sc.ECCurve}
+					switch et {
+					case "crypto/ecdsa.PublicKey":
+						s.mem[c.Ref] = c03V{K: c03Struct, M: map[string]c03V{"Curve": curve}}
+						return c03NilV(), "", true
+					case "crypto/ecdsa.PrivateKey":
+						s.mem[c.Ref] = c03V{K: c03Struct, M: map[string]c03V{"PublicKey": {K: c03Struct, M: map[string]c03V{"Curve": curve}}}}
+						return c03NilV(), "", true
+					}
+				}
 			}
+		}
+		return c03U(), "", true
+	case "crypto/elliptic.P224", "crypto/elliptic.P256", "crypto/elliptic.P384", "crypto/elliptic.P521":
+		return c03V{K: c03NonNil, G: "curve:P-" + name[len(name)-3:]}, "", true
+	case "crypto/elliptic.Curve.Params":
+		if r := arg(0); strings.HasPrefix(r.G, "curve:") {
+			cn := strings.TrimPrefix(r.G, "curve:")
+			var bits int64
+			fmt.Sscanf(cn, "P-%d", &bits)
+			st := c03NewStore()
+			s.mem[st] = c03V{K: c03Struct, M: map[string]c03V{"Name": c03StrV(cn), "BitSize": c03IntV(bits)}}
+			return c03V{K: c03Cell, Ref: st}, "", true
+		}
+		return c03U(), "", true
+	case "github.com/lestrrat-go/jwx/v2/jwa.EllipticCurveAlgorithm.String":
+		if a := arg(0); a.K == c03Str {
+			return a, "", true
+		}
+		return c03U(), "", true
+	case "github.com/lestrrat-go/jwx/v2/jwk.ECDSAPrivateKey.Crv", "github.com/lestrrat-go/jwx/v2/jwk.ECDSAPublicKey.Crv":
+		if x.sc.ECCurve != "" {
+			return c03StrV(x.sc.ECCurve), "", true
 		}
 		return c03U(), "", true
 	case "crypto/rsa.PrivateKey.Decrypt", "crypto/rsa.PrivateKey.Sign", "crypto/ecdsa.PrivateKey.Sign", "crypto/ed25519.PrivateKey.Sign":
